@@ -66,6 +66,9 @@ def cases(tier):
             for req in (0.5, 2.5):
                 for re in ('lam', 'turb'):
                     out.append(dict(base, unit=unit, req=req, re=re, wall='none'))
+        for d in ('d2', 'd3'):
+            for re in ('lam', 'turb'):
+                out.append(dict(base, design=d, core=7, re=re, wall='none', eqT=True, power='asym'))
         for ca in (True,):
             for du in ('1', '2f'):
                 for re in ('vlow', 'lam'):
@@ -208,6 +211,10 @@ def build(c, power):
             [['A', 2, p, {'flowrate': flow * f}] for p, f in zip(range(1, 7), (0.8, 0.35, 0.9, 0.6, 1.2, 0.5))]
         spec = scn['power']['asm']['1']
         scn['power']['asm'] = {str(i + 1): dict(spec, seed=i) for i in range(7)}
+        if c.get('eqT'):
+            # power proportional to flow: every assembly of the type has the same estimated outlet temperature
+            for i, f in enumerate((1.0, 0.8, 0.35, 0.9, 0.6, 1.2, 0.5)):
+                scn['power']['asm'][str(i + 1)]['q'] = spec['q'] * f
     if c.get('unit'):
         from . import c17
         scn = c17.convert_scenario(scn, c['unit'], 'kelvin', 'kg/s')
